@@ -247,7 +247,7 @@ def C02(c):
     # dp on 7-8 items with 8-bit values and 3-4 bins, every objective, through a sums-only and a contents-keeping output: prunes that are sound
     # for one objective only (or for one manager only) lose the optimum on a few inputs in a thousand of this shape, on none of the smaller ones
     wide = [{"alg": "dp", "vals": [rng.randint(1, 255) for _ in range(rng.randint(7, 8))], "p": {"k": rng.choice([3, 3, 4]), "obj": rng.choice(["diff", "diff", "diff"] + C.OBJS5)}}
-            for _ in range(c.n(1000, 8000))]
+            for _ in range(c.n(600, 8000))]
     c.corr("dp-8-items-8-bit", wide, combos_of(["list"], ["Sums", PT]), judge=judge)
     c.corr("random-cg", C.random_part_cases(rng, ["cg"], c.n(600, 6000), objs=C.OBJS5), combos_of(["list"], [PT]), judge=judge)
     c.corr("random-ilp", C.random_part_cases(rng, ["ilp"], c.n(200, 2000), objs=C.OBJS5), combos_of(["list"], [PT]), judge=judge)
